@@ -976,6 +976,13 @@ class CallMixin:
                 return k(st, NONE)
             st.heap[recv.rid] = HDict(h.kt, h.vt, z3.Store(h.mem, to_z3(args[0], h.kt), z3.BoolVal(True)), h.vals)
             return k(st, NONE)
+        if name == 'remove' and h.vt is None:          # set.remove: KeyError when absent
+            kz = to_z3(args[0], h.kt)
+
+            def rm(s):
+                s.heap[recv.rid] = HDict(h.kt, h.vt, z3.Store(h.mem, kz, z3.BoolVal(False)), h.vals)
+                return k(s, NONE)
+            return self.guard(st, z3.Select(h.mem, kz), 'KeyError', 'set-remove', node, rm)
         if name == 'discard':
             st.heap[recv.rid] = HDict(h.kt, h.vt, z3.Store(h.mem, to_z3(args[0], h.kt), z3.BoolVal(False)), h.vals)
             return k(st, NONE)
